@@ -1542,12 +1542,12 @@ class PosVelArray(PositionArray):
     @property
     def acr_along(self):
         """ Unit vector for in the along-track direction"""
-        return self.acr2trs[:, :, 0:1]
+        return self.acr2trs[..., 0:1]
 
     @property
     def acr_cross(self):
         """ Unit vector for in the cross-track direction"""
-        return self.acr2trs[:, :, 1:2]
+        return self.acr2trs[..., 1:2]
 
     @property
     def acr_radial(self):
